@@ -135,6 +135,8 @@ def make_readers(rng, tle):
     for s0 in (2.0, 4.0):   # the same overridden entry with different values
         cu = {"channel_1": {"dark_count": 39.0, "gain_switch": 500.0, "s0": s0, "s1": 0.0, "s2": 0.0}}
         configs.append(("gac_klm", klm_bytes, dict(tle_dir=tle_dir, tle_name=tle_name, tle_thresh=40000, calibration_parameters=dict(custom_coeffs=cu))))
+    # element sets exist but the nearest one is older than the limit: the TLE-free fallback, on every call
+    configs.append(("gac_klm", klm_bytes, dict(tle_dir=tle_dir, tle_name=tle_name, tle_thresh=1e-6)))
     return configs
 
 
@@ -187,7 +189,9 @@ def run(res, tier, seed):
         scripts = [(0, ["lonlat", "meta", "save_cut", "meta", "save_cut", "meta", "dataset", "save"]),
                    (1, ["calibrated", "counts", "telemetry", "dataset", "save_cut", "meta", "angles", "lonlat"]),
                    # tie-point-only coordinates on the file with two unflagged out-of-range lines: mask / summary around every producer
-                   (2, ["mask", "lonlat", "mask", "qual", "calibrated", "mask", "angles", "mask", "dataset", "mask", "lonlat"])]
+                   (2, ["mask", "lonlat", "mask", "qual", "calibrated", "mask", "angles", "mask", "dataset", "mask", "lonlat"]),
+                   # nearest element set older than the limit: repeated angle requests around other accessors
+                   (len(configs) - 1, ["angles", "angles", "lonlat", "angles", "save", "angles"])]
         for h in range(nh + len(scripts)):
             script = scripts[h] if h < len(scripts) else None
             k = 1 if script else rng.choice([1, 2, 3])
